@@ -305,15 +305,7 @@ def gotoOrDef (st : Index) (f : Path) (line0 col : Nat) : Option Def × Index :=
 def fixtureAt (st : Index) (f : Path) (line0 col : Nat) : Option String :=
   match st.lineText f line0 with
   | none => none
-  | some lc =>
-    let w := (wordAt lc col).map String.ofList
-    match (st.usagesOf f).find? (fun u => u.line == line0 + 1 && u.startChar ≤ col && col < u.endChar) with
-    | some u => some u.name
-    | none =>
-      match w with
-      | none => none
-      | some w =>
-        if st.defs.any (fun d => d.file == f && d.line == line0 + 1 && d.name == w) then some w else none
+  | some lc => fixtureAtWith st.defs (st.usagesOf f) f line0 col ((wordAt lc col).map String.ofList)
 
 /-- `get_definition_at_line`. -/
 def definitionAtLine (st : Index) (f : Path) (line : Nat) (n : String) : Option Def :=
